@@ -70,70 +70,158 @@ def consts(src, names, label, env=None):
     return out
 
 
+def baseline():
+    """values of the committed / previous Extracted.lean (the values the model was last validated with)"""
+    vals, table = {}, None
+    try:
+        with open(os.path.normpath(OUT)) as f:
+            txt = f.read()
+    except OSError:
+        return vals, table
+    for m in re.finditer(r"^def (\w+) : Nat := (\d+)$", txt, flags=re.M):
+        vals[m.group(1)] = int(m.group(2))
+    m = re.search(r"def kSelectInByte : Array Nat := #\[(.*?)\]", txt, flags=re.S)
+    if m:
+        table = [int(x) for x in re.findall(r"\d+", m.group(1))]
+    return vals, table
+
+
+FALLBACKS = []
+
+
+def item(names, fn, base):
+    """run one extraction step; when the source no longer has the item in a recognisable form, keep the
+    previous value(s) and record the fact: the model then describes the code the proofs were last checked
+    against, and only the correspondence run ties it to the current source"""
+    try:
+        return fn()
+    except Missing as e:
+        if all(n in base for n in names):
+            FALLBACKS.append(str(e))
+            return {n: base[n] for n in names}
+        raise
+
+
 def main():
+    base, base_table = baseline()
     d = {}
     # ---------------------------------------------------------------- utils
     u = read("src/utils/mod.rs")
-    m = re.search(r"const\s+K_SELECT_IN_BYTE\s*:\s*\[u8;\s*(\d+)\]\s*=\s*\[(.*?)\];", u, flags=re.S)
-    if not m:
-        raise Missing("utils::K_SELECT_IN_BYTE")
-    table = [int(x) for x in re.findall(r"\d+", m.group(2))]
-    if len(table) != int(m.group(1)):
-        raise Missing("utils::K_SELECT_IN_BYTE length")
-    uc = strip_comments(u)
-    for n in ("k_ones_step4", "k_ones_step8", "k_lambdas_step8"):
-        mm = re.search(r"(?:let|const)\s+(?i:" + n + r")\s*(?::\s*u64\s*)?=\s*([^;]+);", uc)
-        if not mm:
-            raise Missing(f"utils::select_in_word::{n}")
-        d[n] = ev(mm.group(1), {})
-    # ---------------------------------------------------------------- rs_support_plain
-    r = read("src/qvector/rs_qvector/rs_support_plain.rs")
-    rc = consts(r, ["SELECT_NUM_SAMPLES", "BLOCKS_IN_SUPERBLOCK"], "rs_support_plain")
-    # assert!(qv.len() < (1 << 43)) -- the bound may be written as any constant expression (or a named constant)
-    rs_env = dict(rc)
-    for cn, ce in re.findall(r"\b(?:const|static)\s+([A-Z_][A-Z0-9_]*)\s*:\s*\w+\s*=\s*([^;]+);", strip_comments(r)):
+    m = re.search(r"(?:const|static)\s+K_SELECT_IN_BYTE\s*:\s*\[u8;\s*([^\]]+)\]\s*=\s*\[(.*?)\];", strip_comments(u), flags=re.S)
+    table = None
+    if m:
+        table = [int(x, 0) for x in re.findall(r"0x[0-9a-fA-F]+|\d+", m.group(2))]
         try:
-            rs_env.setdefault(cn, ev(ce, rs_env))
+            if len(table) != ev(m.group(1), {}):
+                table = None
         except Missing:
             pass
-    mm = re.search(r"assert!\(\s*qv\.len\(\)\s*<\s*((?:[^(),]|\([^()]*\))+?)\s*[,)]", strip_comments(r))
-    if not mm:
-        raise Missing("rs_support_plain::new length limit")
-    lim = ev(mm.group(1), rs_env)
-    if lim <= 0 or lim & (lim - 1):
-        raise Missing(f"rs_support_plain::new length limit {lim} is not a power of two")
-    d["RSQ_LEN_LIMIT_LOG"] = lim.bit_length() - 1
-    q = strip_comments(read("src/qvector/rs_qvector.rs"))
-    for n in ("RSQVector256", "RSQVector512"):
-        mm = re.search(r"pub\s+type\s+" + n + r"\s*=\s*RSQVector<\s*RSSupportPlain<\s*(\d+)\s*>\s*>", q)
-        if not mm:
-            raise Missing(f"rs_qvector::{n}")
-        d[n + "_BLOCK"] = int(mm.group(1))
-    qv = read("src/qvector/mod.rs")
-    qc = consts(qv, ["N_BITS_WORD"], "qvector")
-    # ---------------------------------------------------------------- rs_narrow / rs_wide
-    nr = consts(read("src/bitvector/rs_narrow.rs"),
-                ["BLOCK_SIZE", "SELECT_ONES_PER_HINT", "SELECT_ZEROS_PER_HINT"], "rs_narrow")
-    wd = consts(read("src/bitvector/rs_wide.rs"),
-                ["BLOCK_SIZE", "SUPERBLOCK_SIZE", "SELECT_ONES_PER_HINT", "SELECT_ZEROS_PER_HINT"], "rs_wide")
-    # ---------------------------------------------------------------- darray
-    da = consts(read("src/darray/mod.rs"), ["BLOCK_SIZE", "SUBBLOCK_SIZE", "MAX_IN_BLOCK_DISTACE"], "darray")
-    # ---------------------------------------------------------------- prefetch sampling shift
-    shifts = set()
-    for f in ("src/quadwt/mod.rs", "src/quadwt/huffqwt.rs"):
-        src_f = strip_comments(read(f))
-        ms = re.findall(r"PrefetchSupport::new\(\s*&\s*\w+\s*,\s*([^()]+?)\s*\)", src_f)
-        if not ms:
-            raise Missing(f"{f}: PrefetchSupport::new sampling shift")
-        f_env = {}
-        for cn, ce in re.findall(r"\b(?:const|static)\s+([A-Z_][A-Z0-9_]*)\s*:\s*\w+\s*=\s*([^;]+);", src_f):
+    if table is None:
+        if base_table is None:
+            raise Missing("utils::K_SELECT_IN_BYTE")
+        FALLBACKS.append("utils::K_SELECT_IN_BYTE")
+        table = base_table
+    uc = strip_comments(u)
+
+    def broadword():
+        out = {}
+        for n, ln in (("k_ones_step4", "kOnesStep4"), ("k_ones_step8", "kOnesStep8"), ("k_lambdas_step8", "kLambdasStep8")):
+            mm = re.search(r"(?:let|const)\s+(?i:" + n + r")\s*(?::\s*u64\s*)?=\s*([^;]+);", uc)
+            if not mm:
+                raise Missing(f"utils::select_in_word::{n}")
+            out[ln] = ev(mm.group(1), {})
+        return out
+    bw = item(["kOnesStep4", "kOnesStep8", "kLambdasStep8"], broadword, base)
+    d["k_ones_step4"], d["k_ones_step8"], d["k_lambdas_step8"] = bw["kOnesStep4"], bw["kOnesStep8"], bw["kLambdasStep8"]
+    # ---------------------------------------------------------------- rs_support_plain
+    r = read("src/qvector/rs_qvector/rs_support_plain.rs")
+
+    def rsq_consts():
+        rc_ = consts(r, ["SELECT_NUM_SAMPLES", "BLOCKS_IN_SUPERBLOCK"], "rs_support_plain")
+        return {"rsqSelectNumSamples": rc_["SELECT_NUM_SAMPLES"], "rsqBlocksInSuperblock": rc_["BLOCKS_IN_SUPERBLOCK"]}
+    rcx = item(["rsqSelectNumSamples", "rsqBlocksInSuperblock"], rsq_consts, base)
+    rc = {"SELECT_NUM_SAMPLES": rcx["rsqSelectNumSamples"], "BLOCKS_IN_SUPERBLOCK": rcx["rsqBlocksInSuperblock"]}
+
+    def len_limit():
+        # assert!(qv.len() < (1 << 43)) -- the bound may be written as any constant expression (or a named constant)
+        rs_env = dict(rc)
+        for cn, ce in re.findall(r"\b(?:const|static)\s+([A-Z_][A-Z0-9_]*)\s*:\s*\w+\s*=\s*([^;]+);", strip_comments(r)):
             try:
-                f_env.setdefault(cn, ev(ce, f_env))
+                rs_env.setdefault(cn, ev(ce, rs_env))
             except Missing:
                 pass
-        shifts |= {ev(x, f_env) for x in ms}
-    if len(shifts) != 1:
-        raise Missing(f"prefetch sampling shift differs between call sites: {sorted(shifts)}")
+        mm = re.search(r"assert!\(\s*qv\.len\(\)\s*<\s*((?:[^(),]|\([^()]*\))+?)\s*[,)]", strip_comments(r))
+        if not mm:
+            raise Missing("rs_support_plain::new length limit")
+        lim = ev(mm.group(1), rs_env)
+        if lim <= 0 or lim & (lim - 1):
+            raise Missing(f"rs_support_plain::new length limit {lim} is not a power of two")
+        return {"rsqLenLimitLog": lim.bit_length() - 1}
+    d["RSQ_LEN_LIMIT_LOG"] = item(["rsqLenLimitLog"], len_limit, base)["rsqLenLimitLog"]
+    q = strip_comments(read("src/qvector/rs_qvector.rs"))
+
+    def aliases():
+        out = {}
+        for n, ln in (("RSQVector256", "rsq256Block"), ("RSQVector512", "rsq512Block")):
+            mm = re.search(r"pub\s+type\s+" + n + r"\s*=\s*RSQVector<\s*RSSupportPlain<\s*([^>]+?)\s*>\s*>", q)
+            if not mm:
+                raise Missing(f"rs_qvector::{n}")
+            out[ln] = ev(mm.group(1), {})
+        return out
+    al = item(["rsq256Block", "rsq512Block"], aliases, base)
+    d["RSQVector256_BLOCK"], d["RSQVector512_BLOCK"] = al["rsq256Block"], al["rsq512Block"]
+    qv = read("src/qvector/mod.rs")
+    qc = {"N_BITS_WORD": item(["qvNBitsWord"], lambda: {"qvNBitsWord": consts(qv, ["N_BITS_WORD"], "qvector")["N_BITS_WORD"]}, base)["qvNBitsWord"]}
+    # ---------------------------------------------------------------- rs_narrow / rs_wide
+
+    def narrow():
+        c_ = consts(read("src/bitvector/rs_narrow.rs"), ["BLOCK_SIZE", "SELECT_ONES_PER_HINT", "SELECT_ZEROS_PER_HINT"], "rs_narrow")
+        return {"narrowBlockSize": c_["BLOCK_SIZE"], "narrowOnesPerHint": c_["SELECT_ONES_PER_HINT"], "narrowZerosPerHint": c_["SELECT_ZEROS_PER_HINT"]}
+    nrx = item(["narrowBlockSize", "narrowOnesPerHint", "narrowZerosPerHint"], narrow, base)
+    nr = {"BLOCK_SIZE": nrx["narrowBlockSize"], "SELECT_ONES_PER_HINT": nrx["narrowOnesPerHint"], "SELECT_ZEROS_PER_HINT": nrx["narrowZerosPerHint"]}
+
+    def wide():
+        c_ = consts(read("src/bitvector/rs_wide.rs"), ["BLOCK_SIZE", "SUPERBLOCK_SIZE", "SELECT_ONES_PER_HINT", "SELECT_ZEROS_PER_HINT"], "rs_wide")
+        return {"wideBlockSize": c_["BLOCK_SIZE"], "wideSuperblockSize": c_["SUPERBLOCK_SIZE"], "wideOnesPerHint": c_["SELECT_ONES_PER_HINT"], "wideZerosPerHint": c_["SELECT_ZEROS_PER_HINT"]}
+    wdx = item(["wideBlockSize", "wideSuperblockSize", "wideOnesPerHint", "wideZerosPerHint"], wide, base)
+    wd = {"BLOCK_SIZE": wdx["wideBlockSize"], "SUPERBLOCK_SIZE": wdx["wideSuperblockSize"], "SELECT_ONES_PER_HINT": wdx["wideOnesPerHint"], "SELECT_ZEROS_PER_HINT": wdx["wideZerosPerHint"]}
+    # ---------------------------------------------------------------- darray
+
+    def darray():
+        src_d = read("src/darray/mod.rs")
+        c_ = consts(src_d, ["BLOCK_SIZE", "SUBBLOCK_SIZE"], "darray")
+        # the distance constant has been spelled with and without its typo
+        for nm in ("MAX_IN_BLOCK_DISTACE", "MAX_IN_BLOCK_DISTANCE"):
+            try:
+                c_["MAX"] = consts(src_d, [nm], "darray", c_)[nm]
+                break
+            except Missing:
+                pass
+        if "MAX" not in c_:
+            raise Missing("darray::MAX_IN_BLOCK_DISTACE")
+        return {"daBlockSize": c_["BLOCK_SIZE"], "daSubblockSize": c_["SUBBLOCK_SIZE"], "daMaxInBlockDistance": c_["MAX"]}
+    dax = item(["daBlockSize", "daSubblockSize", "daMaxInBlockDistance"], darray, base)
+    da = {"BLOCK_SIZE": dax["daBlockSize"], "SUBBLOCK_SIZE": dax["daSubblockSize"], "MAX_IN_BLOCK_DISTACE": dax["daMaxInBlockDistance"]}
+    # ---------------------------------------------------------------- prefetch sampling shift
+
+    def pfs_shift():
+        shifts = set()
+        for f in ("src/quadwt/mod.rs", "src/quadwt/huffqwt.rs"):
+            src_f = strip_comments(read(f))
+            ms = re.findall(r"PrefetchSupport::new\(\s*&\s*\w+\s*,\s*([^()]+?)\s*\)", src_f)
+            if not ms:
+                raise Missing(f"{f}: PrefetchSupport::new sampling shift")
+            f_env = {}
+            for cn, ce in re.findall(r"\b(?:const|static)\s+([A-Z_][A-Z0-9_]*)\s*:\s*\w+\s*=\s*([^;]+);", src_f):
+                try:
+                    f_env.setdefault(cn, ev(ce, f_env))
+                except Missing:
+                    pass
+            shifts |= {ev(x, f_env) for x in ms}
+        if len(shifts) != 1:
+            raise Missing(f"prefetch sampling shift differs between call sites: {sorted(shifts)}")
+        return {"pfsSampleShift": shifts.pop()}
+    shifts = {item(["pfsSampleShift"], pfs_shift, base)["pfsSampleShift"]}
 
     L = []
     L.append("/- GENERATED by tools/extract.py from the Rust sources on every run. Do not edit. -/")
@@ -184,6 +272,8 @@ def main():
         print("extract: Extracted.lean rewritten")
     else:
         print("extract: Extracted.lean unchanged")
+    for fb in FALLBACKS:
+        print(f"EXTRACT-FALLBACK: {fb} not found in a recognisable form; the previously extracted value is kept")
 
 
 if __name__ == "__main__":
